@@ -33,6 +33,19 @@ func (fc *FnCtx) evalTargets(x ast.Expr, env *Env) []WTarget {
 		if _, ok := fc.eng.cs.Ghosts[x.Name]; ok {
 			return []WTarget{{Ghost: x.Name}}
 		}
+		if x.Name == "ghosts" {
+			// every ghost variable (ghost state is specification-only; listing it adds no trust)
+			var ts []WTarget
+			var names []string
+			for g := range fc.eng.cs.Ghosts {
+				names = append(names, g)
+			}
+			sort.Strings(names)
+			for _, g := range names {
+				ts = append(ts, WTarget{Ghost: g})
+			}
+			return ts
+		}
 	case *ast.CallExpr:
 		if id, ok := x.Fun.(*ast.Ident); ok {
 			switch id.Name {
@@ -467,12 +480,16 @@ func (fc *FnCtx) applyCall(ci calleeInfo, in ssa.Instruction, st *State, resT ty
 	if ci.isIface && len(ci.args) > 0 && ci.args[0].K == KIface {
 		fc.oblig("nil", "interface receiver of "+text, not(eq(ci.args[0].Tag, "0")), posOf(in))
 	}
-	fc.runHooks(ci, in, st, "before")
+	fc.runHooks(ci, in, st, "before", nil)
 	if ci.con == nil {
+		var r Val
 		if ci.fn != nil && fc.eng.inlinable(ci.fn) && fc.depth < 3 {
-			return fc.inlineCall(ci, in, st, resT)
+			r = fc.inlineCall(ci, in, st, resT)
+		} else {
+			r = fc.unknownCall(ci, in, st, resT)
 		}
-		return fc.unknownCall(ci, in, st, resT)
+		fc.runHooks(ci, in, st, "after", &r)
+		return r
 	}
 	ci.con.Bound = true
 	pre := st.clone()
@@ -512,7 +529,7 @@ func (fc *FnCtx) applyCall(ci calleeInfo, in ssa.Instruction, st *State, resT ty
 	for _, c := range ci.con.Ensures {
 		fc.assume(fc.evalBool(c.Expr, env2))
 	}
-	fc.runHooks(ci, in, st, "after")
+	fc.runHooks(ci, in, st, "after", &res)
 	return res
 }
 
@@ -574,6 +591,13 @@ func (fc *FnCtx) pureResult(ci calleeInfo, resT types.Type) Val {
 
 func (fc *FnCtx) unknownCall(ci calleeInfo, in ssa.Instruction, st *State, resT types.Type) Val {
 	fc.unknownCallees[ci.name] = true
+	if ci.fn != nil && ci.fn.Pkg != nil && strings.HasPrefix(ci.fn.Pkg.Pkg.Path(), "github.com/apernet/hysteria") {
+		// a callee from this repository without a contract (and too large to inline)
+		// may write anything the repository owns: havoc every region
+		fc.note("in-repo callee %s has no contract: every heap region havocked at the call", ci.name)
+		fc.frameCheckTargets([]WTarget{{Any: true}}, ci.name, in)
+		fc.havoc(st, []WTarget{{Any: true}})
+	}
 	// byte slices passed to unknown code may be overwritten
 	for _, a := range ci.args {
 		if a.K == KSlice {
@@ -604,7 +628,7 @@ func (fc *FnCtx) spawn(in *ssa.Go, st *State) {
 		return
 	}
 	ci := fc.resolveCallee(cc, st)
-	fc.runHooks(ci, in, st, "go")
+	fc.runHooks(ci, in, st, "go", nil)
 	if ci.con != nil {
 		ci.con.Bound = true
 		env := fc.calleeEnv(ci, st, st)
@@ -633,20 +657,45 @@ func (fc *FnCtx) runDefers(in *ssa.RunDefers, st *State) {
 	// order of registration = block order along dominator chain; reverse for execution
 	for i := len(ds) - 1; i >= 0; i-- {
 		d := ds[i]
-		if !d.Block().Dominates(fc.cur) {
-			if fc.reach[d.Block()] != "false" {
-				panic(unsupported("conditional defer"))
+		run := func(st *State) {
+			cc := d.Common()
+			if b, ok := cc.Value.(*ssa.Builtin); ok {
+				fc.builtin(b, cc, d, st, nil)
+				return
 			}
+			ci := fc.resolveCallee(cc, st)
+			fc.applyCall(ci, d, st, nil, "defer")
+		}
+		if !d.Block().Dominates(fc.cur) {
+			r := fc.reach[d.Block()]
+			if r == "false" || r == "" {
+				continue
+			}
+			// a defer registered on only some paths runs exactly on those paths
+			fc.guarded(r, st, run)
 			continue
 		}
-		cc := d.Common()
-		if b, ok := cc.Value.(*ssa.Builtin); ok {
-			fc.builtin(b, cc, d, st, nil)
-			continue
-		}
-		ci := fc.resolveCallee(cc, st)
-		fc.applyCall(ci, d, st, nil, "defer")
+		run(st)
 	}
+}
+
+// guarded executes f on the state under the extra path condition c; on the
+// other paths the state is unchanged.
+func (fc *FnCtx) guarded(c Term, st *State, f func(st *State)) {
+	saved := fc.reach[fc.cur]
+	branch := st.clone()
+	fc.reach[fc.cur] = and(saved, c)
+	savedSt := fc.vc.st
+	fc.vc.st = branch
+	f(branch)
+	fc.vc.st = savedSt
+	fc.reach[fc.cur] = saved
+	tmp := &FnCtx{vc: fc.vc, eng: fc.eng, out: map[*ssa.BasicBlock]*State{}, reach: map[*ssa.BasicBlock]Term{}}
+	b1, b2 := &ssa.BasicBlock{Index: 0}, &ssa.BasicBlock{Index: 1}
+	tmp.out[b1] = branch
+	tmp.out[b2] = st.clone()
+	merged := tmp.mergeStates([]inEdge{{pred: b1, cond: c}, {pred: b2, cond: not(c)}})
+	*st = *merged
 }
 
 // ---------------------------------------------------------------------------
